@@ -1,14 +1,17 @@
 /-
-  C09, counterexample to the original statement of `unroll_inputs` (without the hypothesis `hki`).
+  C09, regression example for a defect of `tx.unroll` that is fixed in the library (K33).
 
   `cex` has an input `a` that is also marked as an output, and `a` is used as a state output (paired with the
-  state input `s`).  `unroll` creates the io node of `a` as a `buf` (because `a` occurs in `state_io`), although
-  `a` is an input of `cex` that is not a state *input*: the original right-hand side
-  `∃ x ∈ c.inputs, (∀ p ∈ stateIO, p.2 ≠ x) ∧ ∃ t < n, y = ioName ioMap x t` then claims `a_cg_unroll_0` is a free
-  input of the unrolled circuit, which it is not.
-  The smallest repair is `hki : ∀ p ∈ stateIO, p.1 ∉ c.inputs` (no state output is itself an input node).
+  state input `s`).  Before the fix, `unroll` created the io node of `a` as a `buf` (because `a` occurs in
+  `state_io`), although `a` is an input of `cex` that is not a state *input*: `a_cg_unroll_t` was then an undriven
+  buffer, missing from the inputs of the unrolled circuit (which is therefore not lint-clean), and `unroll_inputs`
+  needed the extra hypothesis `hki : ∀ p ∈ stateIO, p.1 ∉ c.inputs`.
+  Fixed in the library (K33): only state *inputs* are forced to buffers.  The theorems below check, on the former
+  counterexample, that the per-step copies of `a` are now inputs of the unrolled circuit, that its inputs are exactly
+  the ones `unroll_inputs` (now without `hki`) describes, and that the result is lint-clean.
 -/
 import CG.Props.C09
+import CG.Lint
 namespace CG.C09
 
 def cex : Circuit :=
@@ -22,7 +25,7 @@ theorem cex_good : Good cex ∧ Pairing cex cexIO :=
   ⟨⟨Limit.lintClean_of_checks cex ⟨by decide, by decide, by decide⟩ (by decide) (by decide) (by decide), rfl⟩,
     ⟨by decide, by decide, by decide, by decide, by decide⟩⟩
 
-/-- the hypothesis that was added fails here -/
+/-- the hypothesis `hki` that used to be needed (before the fix K33) fails here: `a` is a state output and an input -/
 example : ¬ (∀ p ∈ cexIO, p.1 ∉ cex.inputs) := by decide
 
 def cexUC : Circuit := ((Tx.unroll cex 2 cexIO "cg_unroll" id).toOption.map (·.1)).getD {}
@@ -35,24 +38,30 @@ theorem cex_ok : Tx.unroll cex 2 cexIO "cg_unroll" id = .ok (cexUC, cexMap) := b
   | error e => rw [hr] at h; cases h
   | ok r => rfl
 
-theorem cex_not_input : "a_cg_unroll_0" ∉ cexUC.inputs := by decide
+/-- the io map of the unrolled circuit -/
+theorem cex_map : cexMap = [("a", ["a_cg_unroll_0", "a_cg_unroll_1"]), ("s", ["s_cg_unroll_0", "s_cg_unroll_1"]),
+    ("g", ["g_cg_unroll_0", "g_cg_unroll_1"])] := by decide
 
+/-- fixed in the library (K33): the per-step copies of the input `a` (a state output) are inputs of the unrolled
+    circuit — before the fix they were undriven buffers -/
+theorem cex_input_copies : ∀ t, t < 2 → Tx.ioName cexMap "a" t ∈ cexUC.inputs := by decide
+
+theorem cex_is_input : "a_cg_unroll_0" ∈ cexUC.inputs ∧ "a_cg_unroll_1" ∈ cexUC.inputs := by decide
+
+/-- the inputs of the unrolled circuit: both copies of `a`, and the step-0 copy of the state input `s` -/
+theorem cex_inputs : cexUC.inputs = ["a_cg_unroll_0", "s_cg_unroll_0", "a_cg_unroll_1"] := by decide
+
+/-- the right-hand side of `unroll_inputs` for `a_cg_unroll_0` (it was false of the old result) -/
 theorem cex_rhs : ∃ x ∈ cex.inputs, (∀ p ∈ cexIO, p.2 ≠ x) ∧ ∃ t, t < 2 ∧ "a_cg_unroll_0" = Tx.ioName cexMap x t :=
   ⟨"a", by decide, by decide, 0, by decide, by decide⟩
 
-/-- the original statement of `unroll_inputs` is false -/
-theorem unroll_inputs_original_false :
-    ¬ (∀ (c uc : Circuit) (n : Nat) (stateIO : List (Name × Name)) (pfx : String) (ord : Ord)
-        (_ : OrdOK ord) (_ : Good c) (_ : Pairing c stateIO) (ioMap : List (Name × List Name))
-        (_ : Tx.unroll c n stateIO pfx ord = .ok (uc, ioMap)),
-        (ioMap.map (·.1)).Perm c.io ∧ (∀ p ∈ ioMap, p.2.length = n) ∧
-        (∀ y, y ∈ uc.inputs ↔
-          ((∃ p ∈ stateIO, y = Tx.ioName ioMap p.2 0) ∨
-           (∃ x ∈ c.inputs, (∀ p ∈ stateIO, p.2 ≠ x) ∧ ∃ t, t < n ∧ y = Tx.ioName ioMap x t))) ∧
-        (∀ y, y ∈ uc.outputs ↔ ∃ x ∈ c.outputs, ∃ t, t < n ∧ y = Tx.ioName ioMap x t)) := by
-  intro H
-  have h := (H cex cexUC 2 cexIO "cg_unroll" id (fun l => List.Perm.refl l) cex_good.1 cex_good.2 cexMap cex_ok).2.2.1
-    "a_cg_unroll_0"
-  exact cex_not_input (h.2 (Or.inr cex_rhs))
+/-- fixed in the library (K33): the unrolled circuit is lint-clean (no undriven buffer any more) -/
+theorem cex_lint_ok : lint cexUC = .ok := by decide
+
+/-- `unroll_inputs` (without `hki`) applies to the former counterexample -/
+theorem cex_unroll_inputs : ∀ y, y ∈ cexUC.inputs ↔
+    ((∃ p ∈ cexIO, y = Tx.ioName cexMap p.2 0) ∨
+     (∃ x ∈ cex.inputs, (∀ p ∈ cexIO, p.2 ≠ x) ∧ ∃ t, t < 2 ∧ y = Tx.ioName cexMap x t)) :=
+  (unroll_inputs cex cexUC 2 cexIO "cg_unroll" id (fun l => List.Perm.refl l) cex_good.1 cex_good.2 cexMap cex_ok).2.2.1
 
 end CG.C09
